@@ -587,7 +587,7 @@ class Interp:
             sretp = args[0]
         argterms = tuple(self.objterm(a, path) for a in (args[1:] if sretp is not None else args))
         if cls == "prim":
-            ev = (kind, short(dm).split("::operator()")[0].split("::")[-1] if "operator()" in dm else kind, tuple(args), argterms, short(dm))
+            ev = (kind, short(dm).split("::operator()")[0].split("::")[-1] if "operator()" in dm else kind, tuple(args), argterms, short(dm), dm)
             if kind == "alloc":
                 self.counter += 1
                 rv = ("p", ("heap", self.counter), 0)
